@@ -397,3 +397,17 @@ def run(ctx) -> None:
               "Accelerator.wavelength = energy2wavelength(self.energy)",
               f"Accelerator.wavelength returns {norm_text(rexpr)[:80]}, not energy2wavelength of its own energy",
               key_detail="accelerator")
+
+
+# ---- added: package rule R-CACHEKEY (sa/rules/memo2.py) for the modules this property is anchored in
+_inner_run = run
+
+
+def run(ctx) -> None:  # noqa: F811
+    from ..rules import memo2
+
+    ctx.rule("R-CACHEKEY", memo2.__doc__.split("\n\n", 1)[1])
+    memo2.positive_control(ctx)
+    n = memo2.check(ctx, modules={"abtem.core.energy"})
+    ctx.ok("R-CACHEKEY", "scan", "abtem/", f"{n} cache stores found in the anchored modules; positive control matched")
+    _inner_run(ctx)
